@@ -288,6 +288,39 @@ def F33():
     assert o.dumps() == b"\x09\x08", o.dumps()  # the second write through the (stale) proxy is lost
 
 
+def F34():
+    import io
+
+    out = []
+    for comp in (False, True):
+        cs = cstruct()
+        cs.load("struct S { uint16 a:4; uint16 b:12; uint16 c:4; };", align=True, compiled=comp)
+        fh = io.BytesIO(bytes(range(1, 20)))
+        fh.seek(3)
+        out.append(cs.S(fh).c)
+    assert out[0] == out[1], out
+    cs = cstruct()
+    cs.load("struct T { uint8 n; uint8 d[n]; uint24 a:4; uint24 b:4; uint8 c; };", align=True)
+    o = cs.T(n=1, d=[7], a=3, b=5, c=0x99)
+    assert cs.T(o.dumps()) == o
+
+
+def F35():
+    cs = cstruct()
+    cs.load("struct S { uint24 a:20; uint24 b:4; uint8 c; };", align=True)
+    o = cs.S(a=0x12345, b=6, c=0x99)
+    assert cs.S(o.dumps()) == o, (o.dumps().hex(), cs.S(o.dumps()))
+
+
+def F36():
+    from dissect.cstruct.tools.stubgen import generate_cstruct_stub
+
+    cs = cstruct()
+    cs.load("struct child { uint8 a; }; struct S { child x[2]; struct { uint8 a; } *q; };")
+    out = generate_cstruct_stub(cs)
+    assert out.count("class child(") == 1 and "cstruct.__anonymous_0__" not in out, out
+
+
 ALL = {k: v for k, v in globals().items() if k.startswith("F") and callable(v)}
 
 if __name__ == "__main__":
